@@ -56,7 +56,7 @@ def isLong (v : View) : Bool := decide (v.base ≥ 4096)
 /-- operand `<F><reg>` -/
 def parseOperand (s : String) : Option (Char × Nat) :=
   match s.toList with
-  | f :: rest => (String.ofList rest).toNat?.map fun r => (f, r)
+  | f :: rest => if f == 'v' || f == 'c' || f == 'r' || f == 'a' then (String.ofList rest).toNat?.map fun r => (f, r) else none
   | [] => none
 
 /-- an owning array holding a copy of view `v` (contiguous, canonical order), placed in scratch storage far away from
